@@ -215,6 +215,9 @@ def isinstance_model_factory(facts):
 
 
 def method_model(ex, ctx, base, attr, args, kw):
+    r = FE.dim_subs_method(ex, ctx, base, attr, args, kw)
+    if r is not None:
+        return r
     if z3.is_expr(base) and base.sort() == LST and attr == "append":
         x = args[0]
         if isinstance(x, tuple):
